@@ -91,7 +91,7 @@ _base = dict(
 # c1 + 1000*c2 with c = 2*k + (1 if enforce refuses), k = number of authenticated signers can_enforce demands
 # (99: never accepts); a rule is the set of its signer and policy names ("dup": the first signer is listed
 # twice); a batch is one context a or the pair 10*a + b over 1 = c1, 2 = c2, 3 = c3, 4 = w1, 5 = v1 (w1 with
-# constructor arguments); valid_until offset 99 = None, otherwise ledger of the call + offset.
+# constructor arguments); valid_until offset 99 = None, otherwise ledger of the call + offset - 10 (9: already past).
 _ALWAYS, _K1, _K2, _K1_REFUSING, _NEVER = 0, 2, 4, 3, 198
 
 # all supplied-signer sets x one invalid signature, rule sets of <= 2 rules, one management call after init
@@ -101,7 +101,7 @@ _code = dict(
     Supplied=_powerset({"s1", "s2", "d", "u"}),
     InitRules={F({"s1"}), F({"s1", "d", "p1"})},
     RSets={F({"p1"}), F({"s1"}), F({"s2", "d"}), F({"s1", "p1", "p2"})},
-    VUoffs={99, 1}, CheckDTs={0, 1, 2},
+    VUoffs={99, 11}, CheckDTs={0, 1, 2},
     Batches={1, 4, 12, 51},
     BadMode="one", GenRules=2, Depth=1, Emit=True, EmitMod=3,
 )
@@ -110,7 +110,7 @@ _code_thorough = dict(
     InitRules={F({"s1"}), F({"s1", "d", "p1"}), F({"p2"})},
     RSets={F({"p1"}), F({"s1"}), F({"s2", "d"}), F({"s1", "p1", "p2"}), F({"s1", "s2", "d"}), F({"d", "p2"}),
            F({"s1", "s2", "p1"}), F({"s1", "dup"}), F({"s2"}), F({"s1", "s2"}), F({"p1", "p2"}), F({"d"})},
-    VUoffs={99, -1, 0, 1},
+    VUoffs={99, 9, 10, 11},
     Batches={1, 2, 4, 12, 11, 51},
     BadMode="any", EmitMod=40,
 )
@@ -121,7 +121,7 @@ _hist = dict(
     Supplied={F(), F({"s1"}), F({"s1", "s2", "d"}), F({"s2", "d", "u"})},
     InitRules={F({"s1", "p1", "p2"})},           # also offered to add_rule: remove it and add it again
     RSets={F({"s1"}), F({"s2", "d"}), F({"s1", "p1", "p2"})},
-    VUoffs={99, 1}, CheckDTs={0, 1, 2},
+    VUoffs={99, 11}, CheckDTs={0, 1, 2},
     Batches={1, 41},
     BadMode="one", GenRules=3, Depth=2, Emit=True, EmitMod=3,
 )
